@@ -880,3 +880,41 @@ func sliceLitElems(v ssa.Value) []ssa.Value {
 	}
 	return out
 }
+
+// valueOnPath resolves phis along a concrete instruction path: the value a phi
+// takes given the predecessor block the path came through.
+func valueOnPath(v ssa.Value, path []ssa.Instruction) ssa.Value {
+	for depth := 0; depth < 8; depth++ {
+		phi, ok := v.(*ssa.Phi)
+		if !ok {
+			return v
+		}
+		// find the first instruction of phi's block on the path and the block before it
+		var prev *ssa.BasicBlock
+		found := false
+		for i, in := range path {
+			if in.Block() == phi.Block() && (i == 0 || path[i-1].Block() != phi.Block()) {
+				if i > 0 {
+					prev = path[i-1].Block()
+				}
+				found = true
+				// keep the last entry into the block before the end of the path
+			}
+		}
+		if !found || prev == nil {
+			return v
+		}
+		resolved := false
+		for i, p := range phi.Block().Preds {
+			if p == prev {
+				v = phi.Edges[i]
+				resolved = true
+				break
+			}
+		}
+		if !resolved {
+			return v
+		}
+	}
+	return v
+}
